@@ -136,7 +136,7 @@ pub fn c19(ctx: &Ctx) -> (CheckMeta, Outcome) {
                         let img = &images(e, nbits, seed, false)[1];
                         let model = RdModel { bits: Bits::from_bytes(&img.bytes, e), e, zx: backend == "memzx", limit: nbits + 64, tables_ok: diag };
                         let rd = make_reader(e, kind, backend, "", &img.bytes);
-                        let run = RdRun { property: "C19", model: &model, image: &img.bytes, alphabet: &alphabet, max_states: 40_000, check_counter: false };
+                        let run = RdRun { property: "C19", model: &model, image: &img.bytes, alphabet: &alphabet, max_states: 40_000, check_counter: false, max_depth: 0 };
                         crate::rdsys::explore(&run, rd)
                     }));
                 }
